@@ -3,6 +3,7 @@ import JominiModel.Proofs.BinDocText
 import JominiModel.Proofs.BinDocTextFlat
 import JominiModel.Proofs.DateLeaf
 import JominiModel.Proofs.BinDocTextBytes
+import JominiModel.Proofs.BinDocTextNestedBytes
 /-
 C10 — text and binary renderings of one document deserialize to the same value.
 Stated at the level of the two reference meanings `valueOfText` / `valueOfBin` of ONE logical
@@ -65,20 +66,54 @@ theorem C10_key_token (c : Cfg) (id : Nat) (name : Bytes) (h : resolve c id = so
     (textSem c).key (.id id) = (binSem c).key (.id id) := by
   simp [textSem, binSem, leafText, leafPrim, idPrim, h, hn]
 
-/-- a skipped colour is skipped in both formats; a colour read as a sequence starts with the
-name `rgb` in both. -/
-theorem C10_rgb_head (col : Rgb) (e : Ty) :
+/-- a colour, component by component, for the typed reading `(String, Vec<u32>)` both formats share (the binary
+`ColorSequence` and the text header value `rgb { r g b }`, tests/de.rs `same_deserializer_for_header_token`):
+a skipped colour is skipped in both; the FIRST element read as a string is the name `rgb` in both; the SECOND element
+read as a sequence of `u32` is `[r, g, b(, a)]` in both (`to_u64` of the decimal text of each component). -/
+theorem C10_rgb_head (col : Rgb) :
     textColor .ign col = colorVisit .ign col ∧
-    (textColor (.seq e) col = seqFrom e [outerElem1, textInner col] [] ∧
-     colorVisit (.seq e) col = seqFrom e [outerElem1, outerElem2 col] []) := by
-  simp [textColor, colorVisit]
+    textColor .str col = outerElem1 .str ∧ outerElem1 .str = .ok "s726762" := by
+  refine ⟨rfl, ?_, ?_⟩ <;> simp [textColor, textScalarVal, outerElem1, visitPrim] <;> decide
+
+theorem seqFrom_congr (t : Ty) : ∀ (fs gs : List (Ty → Res String)) (acc : List String),
+    fs.length = gs.length → (∀ (i : Nat) (f g : Ty → Res String), fs[i]? = some f → gs[i]? = some g → f t = g t) → seqFrom t fs acc = seqFrom t gs acc
+  | [], [], _, _, _ => rfl
+  | [], _ :: _, _, h, _ => by simp at h
+  | _ :: _, [], _, h, _ => by simp at h
+  | f :: fs, g :: gs, acc, h, hh => by
+    have h0 : f t = g t := hh 0 f g rfl rfl
+    simp only [seqFrom, h0]
+    cases g t with
+    | error e => rfl
+    | ok v => exact seqFrom_congr t fs gs _ (by simpa using h) (fun i f' g' h1 h2 => hh (i + 1) f' g' (by simpa using h1) (by simpa using h2))
+
+theorem C10_rgb_components (col : Rgb) (h : ∀ v ∈ col.comps, v ≤ Scalar.U64_MAX) :
+    textInner col (.seq .u32) = outerElem2 col (.seq .u32) := by
+  simp only [textInner, outerElem2]
+  apply seqFrom_congr
+  · simp
+  · intro i f g h1 h2
+    simp only [List.getElem?_map] at h1 h2
+    cases hv : col.comps[i]? with
+    | none => simp [hv] at h1
+    | some v =>
+      simp only [hv, Option.map_some, Option.some.injEq] at h1 h2
+      subst h1; subst h2
+      have hm : v ∈ col.comps := List.mem_of_getElem? hv
+      simp [textScalarOpt, textScalarVal, toU64_fmtNat v (h v hm), innerElem, visitPrim, Prim.asInt]
+
+/-- NEGATIVE: with untyped (`any`) elements the formats legitimately differ on a colour - the text header value yields
+its body twice (`read_array` on a header starts at the header token, `deserialize_any` on a header goes to its body),
+the binary `ColorSequence` yields `["rgb", [r, g, b]]`.  (Measured on the real code: `tref` cases of corpus/C10.txt.) -/
+theorem C10_rgb_untyped_differs :
+    (textColor (.seq .any) ⟨1, 2, 3, none⟩).toOption = some "[[s31,s32,s33],[s31,s32,s33]]" ∧
+    (colorVisit (.seq .any) ⟨1, 2, 3, none⟩).toOption = some "[s726762,[u1,u2,u3]]" := by
+  decide +kernel
 
 /-
 NOT PROVED here (covered by the `pair` correspondence op — the text reference predicts both text
 deserializers and the binary models all three binary ones on every generated document, floats bit
 for bit — and by the implementation oracle):
-  * the components of a colour: `textInner col (.seq .u32) = outerElem2 col (.seq .u32)` needs
-    `toU64 (fmtNat v) = v` per component (`toU64_fmtNat`) folded over `seqFrom`;
   * the fixed point leaf (text "1.500" through f64 vs. F32 token through f32): equal only up to
     one f32 ulp in general, see the meta file;
   * dates: text `Y.M.D` vs I32 — the date codec model belongs to C13; here only the implementation
@@ -107,5 +142,20 @@ deserializer models on the rendered text bytes, and the binary parser / lexer mo
 deserializer models on the encoded binary bytes, all have the outcome `valueOfBin` of the one logical document.
 (The streaming text path carries the text reader slice's `bv_decide` certificates.) -/
 theorem C10_bytes_end_to_end : type_of% @BinDe.C10_bytes_end_to_end := @BinDe.C10_bytes_end_to_end
+
+/-- C10 on NESTED documents, reference level: under the recursive decidable condition `c10Root` (objects in objects,
+arrays of scalars, arrays of objects; structs, maps, sequences, `Option`s, scalar leaves) the text reference equals the
+binary reference. -/
+theorem C10_nested_spec : type_of% @BinDe.C10_nested_spec := @BinDe.C10_nested_spec
+
+/-- … and that value is what the three binary deserializer models return. -/
+theorem C10_nested_end_to_end : type_of% @BinDe.C10_nested_end_to_end := @BinDe.C10_nested_end_to_end
+
+/-- the two slices' TEXT references agree on nested documents. -/
+theorem C10_text_references_agree_nested : type_of% @BinDe.valueOfText_bridge_nested := @BinDe.valueOfText_bridge_nested
+
+/-- C10 capstone at BYTE level for NESTED documents: both text deserializer models on the rendered text bytes and the three
+binary deserializer models on the encoded binary bytes have the outcome `valueOfBin` of the one logical document. -/
+theorem C10_bytes_end_to_end_nested : type_of% @BinDe.C10_bytes_end_to_end_nested := @BinDe.C10_bytes_end_to_end_nested
 
 end Jomini.Props.C10
